@@ -519,5 +519,113 @@ impl ArgMap {
     }
 //!end
 }
+
+// serde_json::from_reader over the buffered file: the value the file's bytes denote (the whole content: BufReader::new over a freshly opened file)
+#[verifier::external_body] pub fn from_reader_buf<T>(br: iox::BufReader<fs::File>, Tracked(w): Tracked<&mut World>) -> (r: Result<T, serde_json::Error>)
+    ensures *final(w) == *old(w), r matches Ok(v) ==> json_parse::<T>(br.rest) == Some(v), r is Err ==> json_parse::<T>(br.rest) is None { unimplemented!() }
+#[verifier::external_body] pub fn json_to_generic(e: serde_json::Error) -> (r: MonorailError) ensures r is Generic { unimplemented!() }
+// HashMap::from([(k, v)])
+#[verifier::external_body] pub fn hashmap_single<V>(k: String, v: V) -> (r: HashMap<String, V>) ensures r@ == Map::<Seq<char>, V>::empty().insert(k@, v) { unimplemented!() }
+// what an argmap file contributes to (target, command): the arguments its JSON object lists for the command; nothing when there is no file
+pub open spec fn file_args(fs: Map<Seq<char>, Seq<u8>>, p: Seq<char>, c: Seq<char>) -> Seq<String> {
+    if fs.dom().contains(p) && json_parse::<HashMap<String, Vec<String>>>(fs[p]) is Some { row(json_parse::<HashMap<String, Vec<String>>>(fs[p])->Some_0@, c) } else { Seq::empty() }
+}
+impl ArgMap {
+//!fn src/app/run.rs ArgMap::merge_target_argmap rules=R1,R10,R12,R16 props=C11
+    fn merge_target_argmap(&mut self, target: &str, p: &path::Path, Tracked(w): Tracked<&mut World>) -> ⟦(res: ⟧Result<(), MonorailError>⟦)⟧
+@        ensures
+@            final(w).fs == old(w).fs,
+@            // C11: the entries of the file are appended under this target's key, command by command; a missing file contributes nothing
+@            // (and is not an error); an unreadable or malformed file is an error and changes nothing
+@            res is Ok ==> forall|t: Seq<char>, c: Seq<char>| #![trigger cell(final(self).table@, t, c)] cell(final(self).table@, t, c)
+@                == cell(old(self).table@, t, c) + (if t == target@ { file_args(old(w).fs, p@, c) } else { Seq::<String>::empty() }), // [C11]
+@            res is Ok ==> (old(w).fs.dom().contains(p@) ==> json_parse::<HashMap<String, Vec<String>>>(old(w).fs[p@]) is Some), // [C11]
+@            !old(w).fs.dom().contains(p@) ==> res is Ok, // [C11]
+@            res is Err ==> final(self).table@ == old(self).table@,
+    {
+        if !p.exists(Tracked(w)) {
+@            assert forall|t: Seq<char>, c: Seq<char>| #![trigger cell(self.table@, t, c)] cell(self.table@, t, c) == cell(self.table@, t, c) + Seq::<String>::empty() by { assert(cell(self.table@, t, c) + Seq::<String>::empty() =~= cell(self.table@, t, c)); }
+            return Ok(());
+        }
+        let f = fs::File::open(p, Tracked(w)).map_err(MonorailError::from)?;
+        let br = iox::BufReader::new(f);
+        let src⟦: HashMap<String, Vec<String>>⟧ = from_reader_buf(br, Tracked(w)).map_err(json_to_generic)?;
+@        let ghost tb0 = self.table@;
+@        let ghost one = Map::<Seq<char>, HashMap<String, Vec<String>>>::empty().insert(target@, src);
+        self.merge(hashmap_single(target.to_string(), src));
+@        assert forall|t: Seq<char>, c: Seq<char>| #![trigger cell(self.table@, t, c)] cell(self.table@, t, c) == cell(tb0, t, c) + (if t == target@ { file_args(old(w).fs, p@, c) } else { Seq::<String>::empty() }) by {
+@            assert(cell(self.table@, t, c) == cell(tb0, t, c) + cell(one, t, c));
+@        }
+        Ok(())
+    }
+//!end
+}
+
+//!type src/app/run.rs HandleRunInput
+pub struct HandleRunInput<'a> {
+    pub git_opts: git::GitOptions<'a>,
+    pub commands: Vec<&'a String>,
+    pub sequences: Vec<&'a String>,
+    pub targets: HashSet<&'a String>,
+    pub args: Vec<&'a String>,
+    pub argmaps: Vec<&'a String>,
+    pub include_deps: bool,
+    pub fail_on_undefined: bool,
+    pub use_base_argmaps: bool,
+}
+//!end
+pub mod git { pub struct GitOptions<'a> { pub begin: Option<&'a str>, pub end: Option<&'a str>, pub git_path: &'a str } }
+// R12 targets: `set.iter().next()` - some member of the set, none iff it is empty; `v.iter().map(|s| s.to_string()).collect()` - the same strings, owned
+#[verifier::external_body] pub fn set_first<'a>(s: &HashSet<&'a String>) -> (r: Option<&'a String>)
+    ensures r matches Some(x) ==> s@.contains(x@), r is None ==> s@ =~= Set::<Seq<char>>::empty() { unimplemented!() }
+#[verifier::external_body] pub fn strs_to_strings(v: &Vec<&String>) -> (r: Vec<String>)
+    ensures r@.len() == v@.len(), forall|i: int| 0 <= i < r@.len() ==> (#[trigger] r@[i])@ == v@[i]@ { unimplemented!() }
+pub open spec fn views_eq(a: Seq<String>, b: Seq<&String>) -> bool { a.len() == b.len() && forall|i: int| 0 <= i < a.len() ==> (#[trigger] a[i])@ == b[i]@ }
+impl ArgMap {
+//!fn src/app/run.rs ArgMap::merge_run_input rules=R1,R12 props=C11
+    fn merge_run_input(&mut self, input: &HandleRunInput) -> ⟦(res: ⟧Result<(), MonorailError>⟦)⟧
+@        ensures
+@            // C11: `--arg` values are appended LAST (this runs after every argmap file was merged) to the single requested (target, command);
+@            // with several commands or targets they are rejected; without --arg nothing changes
+@            input.args@.len() == 0 ==> res is Ok && final(self).table@ == old(self).table@, // [C11]
+@            (input.args@.len() > 0 && res is Ok) ==> input.commands@.len() == 1 && exists|tg: Seq<char>| #![trigger input.targets@.contains(tg)] input.targets@.contains(tg)
+@                && forall|t: Seq<char>, c: Seq<char>| #![trigger cell(final(self).table@, t, c)] (if t == tg && c == input.commands@[0]@ {
+@                        exists|extra: Seq<String>| views_eq(extra, input.args@) && #[trigger] cell(final(self).table@, t, c) == cell(old(self).table@, t, c) + extra
+@                    } else { cell(final(self).table@, t, c) == cell(old(self).table@, t, c) }), // [C11]
+@            res is Err ==> final(self).table@ == old(self).table@,
+    {
+        if !input.args.is_empty() {
+            if input.commands.len() != 1 {
+                return Err(MonorailError::from(
+                    "When providing --arg, only one command may be specified",
+                ));
+            }
+            if input.targets.len() != 1 {
+                return Err(MonorailError::from(
+                    "When providing --arg, only one target may be specified",
+                ));
+            }
+@            let ghost tb0 = self.table@;
+            let first_target = set_first(&input.targets).ok_or(MonorailError::from("Could not extract target"))?.to_string(); let arg_strings = strs_to_strings(&input.args); let src = hashmap_single(first_target, hashmap_single(input.commands[0].to_string(), arg_strings));
+@            let ghost tg = first_target@;
+@            let ghost extra = arg_strings@;
+@            let ghost srcv = src@;
+@            proof { broadcast use axiom_to_string_ref, axiom_to_string_string; assert(input.targets@.contains(tg)); }
+            self.merge(src)⟦;⟧
+@            proof {
+@                broadcast use axiom_to_string_ref, axiom_to_string_string;
+@                assert forall|t: Seq<char>, c: Seq<char>| #![trigger cell(self.table@, t, c)] (if t == tg && c == input.commands@[0]@ {
+@                        exists|ex: Seq<String>| views_eq(ex, input.args@) && #[trigger] cell(self.table@, t, c) == cell(tb0, t, c) + ex
+@                    } else { cell(self.table@, t, c) == cell(tb0, t, c) }) by {
+@                    assert(cell(self.table@, t, c) == cell(tb0, t, c) + cell(srcv, t, c));
+@                    if t == tg && c == input.commands@[0]@ { assert(cell(srcv, t, c) == extra); assert(views_eq(extra, input.args@)); }
+@                    else { assert(cell(srcv, t, c) =~= Seq::<String>::empty()); assert(cell(tb0, t, c) + Seq::<String>::empty() =~= cell(tb0, t, c)); }
+@                }
+@            }
+        }
+        Ok(())
+    }
+//!end
+}
 } // verus!
 fn main() {}
